@@ -215,10 +215,13 @@ def envOfCfg (cfg : Cfg) : Env :=
       .tuple [.tuple [.str (ofString "Py_DEBUG")], ofCV cfg.pyDebug],
       .tuple [.tuple [.str (ofString "Py_GIL_DISABLED")], ofCV cfg.gilDisabled],
       .tuple [.tuple [.str (ofString "WITH_PYMALLOC")], ofCV cfg.withPymalloc],
-      .tuple [.tuple [.str (ofString "Py_UNICODE_SIZE")], ofCV cfg.unicodeSize]]),
+      .tuple [.tuple [.str (ofString "Py_UNICODE_SIZE")], ofCV cfg.unicodeSize],
+      .tuple [.tuple [.str (ofString "py_version_nodot")], ofCV cfg.pyVersionNodot],
+      .tuple [.tuple [.str (ofString "EXT_SUFFIX")], ofCV cfg.extSuffix]]),
    ("hasattr(sys,gettotalrefcount)", .bool cfg.hasRefcount),
    ("EXTENSION_SUFFIXES", .list (if cfg.hasDebugExt then [.str sDebugExt] else [])),
-   ("sys.maxunicode", .int (if cfg.maxUnicodeWide then 1114111 else 65535))]
+   ("sys.maxunicode", .int (if cfg.maxUnicodeWide then 1114111 else 65535)),
+   ("sys.implementation.name", .str cfg.implName)]
 
 def ofOptVersion : Option (List Nat) → PyVal
   | none => .none
@@ -342,15 +345,17 @@ theorem _get_config_var_translated : Gen.PySrc._get_config_var_supported = true 
 theorem _cpython_abis_translated : Gen.PySrc._cpython_abis_supported = true := rfl
 theorem cpython_tags_translated : Gen.PySrc.cpython_tags_supported = true := rfl
 
-/-- the four configuration variables `_cpython_abis` asks for -/
-inductive CfgVar | pyDebug | gilDisabled | withPymalloc | unicodeSize
+/-- the configuration variables the tag generators ask for -/
+inductive CfgVar | pyDebug | gilDisabled | withPymalloc | unicodeSize | pyVersionNodot | extSuffix
 
 def CfgVar.name : CfgVar → Str
   | .pyDebug => ofString "Py_DEBUG" | .gilDisabled => ofString "Py_GIL_DISABLED"
   | .withPymalloc => ofString "WITH_PYMALLOC" | .unicodeSize => ofString "Py_UNICODE_SIZE"
+  | .pyVersionNodot => ofString "py_version_nodot" | .extSuffix => ofString "EXT_SUFFIX"
 def CfgVar.get (cfg : Cfg) : CfgVar → CV
   | .pyDebug => cfg.pyDebug | .gilDisabled => cfg.gilDisabled
   | .withPymalloc => cfg.withPymalloc | .unicodeSize => cfg.unicodeSize
+  | .pyVersionNodot => cfg.pyVersionNodot | .extSuffix => cfg.extSuffix
 
 theorem _get_config_var_eq_model (cfg : Cfg) (x : CfgVar) (warn : PyVal) :
     Gen.PySrc._get_config_var (envOfCfg cfg) (.str x.name) warn = .ok (ofCV (x.get cfg)) := by
@@ -405,13 +410,8 @@ theorem _cpython_abis_eq_model (cfg : Cfg) (ver : List Nat) (warn : PyVal) :
         rw [a, b]
   have e6 : (PyVal.int (if cfg.maxUnicodeWide then 1114111 else 65535)).eq (PyVal.int 1114111) = cfg.maxUnicodeWide := by
     cases cfg.maxUnicodeWide <;> simp
-  simp only [e1, e2, e3, e4, e5, e6, ok_bind, truthy_bool, format_str, list_append_list, List.nil_append, PyRt.eq, PyRt.is_none,
-    isNone_ofCV]
-  -- `a or (b and c)` with its short circuit (the last operand reads the environment)
-  have hsc : ∀ a b c : Bool, (if a = true then Except.ok (PyVal.bool a) else if b = true then Except.ok (PyVal.bool c)
-      else Except.ok (PyVal.bool b) : M PyVal) = .ok (.bool (a || b && c)) := by
-    intro a b c; cases a <;> cases b <;> rfl
-  simp only [hsc, ok_bind, truthy_bool]
+  simp only [e1, e2, e3, e4, e5, e6, ok_bind, truthy_bool, format_str, list_append_list, List.nil_append, PyRt.eq,
+    PyRt.is_none, pure_ok, isNone_ofCV]
   clear g1 g2 g3 g4 hnd hsl htup e1 e2 e3 e4 e5 e6 h313 h38 h33
   have hins : ∀ (l : List PyVal) (x : PyVal), list_insert (.list l) (.int 0) x = .ok (.list (x :: l)) := by
     intro l x
@@ -420,14 +420,16 @@ theorem _cpython_abis_eq_model (cfg : Cfg) (ver : List Nat) (warn : PyVal) :
   simp only [hins]
   generalize (cfg.pyDebug.truthy || cfg.pyDebug.isNone && (cfg.hasRefcount || cfg.hasDebugExt)) = dB
   generalize (cfg.withPymalloc.truthy || cfg.withPymalloc.isNone) = pB
-  generalize (cfg.unicodeSize == CV.int 4 || cfg.unicodeSize.isNone && cfg.maxUnicodeWide) = uB
+  generalize (cfg.unicodeSize == CV.int 4) = u1
+  generalize cfg.unicodeSize.isNone = u2
+  generalize cfg.maxUnicodeWide = u3
   generalize tupGe ver [3, 13] = a5
   generalize tupLt ver [3, 8] = a7
   generalize tupLt ver [3, 3] = a10
   have hg : truthy (ofCV cfg.gilDisabled) = cfg.gilDisabled.truthy := truthy_ofCV _
   generalize hgT : cfg.gilDisabled.truthy = gT at hg
   generalize versionNodot (List.take 2 ver) = vn
-  cases dB <;> cases pB <;> cases uB <;> cases a5 <;> cases a7 <;> cases a10 <;> cases gT <;>
+  cases dB <;> cases pB <;> cases u1 <;> cases u2 <;> cases u3 <;> cases a5 <;> cases a7 <;> cases a10 <;> cases gT <;>
     simp [hg, ofStrs, sCp, ofString]
 
 /-! #### pieces of `cpython_tags` -/
